@@ -81,6 +81,8 @@ def may_raise(interp, origin, allowed=None, never=()):
     """nondeterministically raise an external exception at this point. ``allowed``: class names the assumed contract
     of the external call restricts it to (None = any Exception); ``never``: class names excluded."""
     ctx = CTX()
+    if ctx.notes.get('post_path'):
+        return          # contract clauses evaluated after the path has ended do not inject faults
     flag = ctx.fresh('raises_%s' % origin, z3.BoolSort())
     if not ctx.decide(flag):
         return
@@ -97,6 +99,9 @@ def may_raise(interp, origin, allowed=None, never=()):
 
 
 # --------------------------------------------------------------------------- symbolic objects
+CURRENT_INTERP = [None]      # the interpreter of the running task (for callbacks that have no interpreter argument)
+
+
 class Slot:
     __slots__ = ('inst', 'cls', 'v_inst', 'v_cls', 'cls_may_raise')
 
@@ -122,7 +127,12 @@ class SymObj(SymRef):
         self.truthy = None      # None: an object without __bool__/__len__ (always true); else a Bool term
 
     def __bool__(self):
-        return True if self.truthy is None else _dec(self.truthy)
+        if self.truthy is None:
+            return True
+        # __bool__ / __len__ of a user class: arbitrary code (numpy-like objects raise here)
+        if CURRENT_INTERP[0] is not None:
+            may_raise(CURRENT_INTERP[0], 'bool(%s)' % self.label)
+        return _dec(self.truthy)
 
     # ---- ghost: attribute state at entry, for the frame clause instance_dict(o) == attrs0(o)
     def snapshot(self):
@@ -153,6 +163,9 @@ class SymObj(SymRef):
                 return SymCode(self)
             if name in ('__name__', '__qualname__', '__module__', '__doc__'):
                 return Opaque(name)
+            if name == '__globals__' and self.kind in ('function', 'method'):
+                from .world import Globals
+                return Globals(self)
             raise PyExc(AttributeError, ('%s object has no attribute %r' % (self.kind, name),))
         if _dec(s.inst):
             return s.v_inst
